@@ -73,6 +73,16 @@ Definition lazy_skip (n:string) : option bool :=
   if orb (String.eqb n "&&") (String.eqb n "and") then Some false
   else if orb (String.eqb n "||") (String.eqb n "or") then Some true else None.
 
+(* the namespaces a program can name, and what `private "x"` does to the current scope: a name that is already bound
+   there stays as it is, a new one is bound to nil *)
+Definition ns_nular (n:string) : option string :=
+  if String.eqb n "missionnamespace" then Some "missionNamespace"
+  else if String.eqb n "uinamespace" then Some "uiNamespace" else None.
+Definition declare (s:sstate) (x:string) : sstate :=
+  match st_scopes s with
+  | sc :: _ => match assoc (lower x) (sc_vars sc) with Some _ => s | None => bind_here s x RNil end
+  | [] => s end.
+
 (* the first instruction of a (non-empty) block is a plain push or a variable read: true of every block whose first
    statement does not start with a nular operator; the step that takes a loop round again executes it *)
 Definition leaf_first (b:list stmt) : Prop :=
@@ -125,6 +135,22 @@ Inductive zev : sstate -> expr -> rvalue -> sstate -> Prop :=
 | ZWhileVal s n a cond s1 : lower n = "while" -> (forall k, a <> ENum k) -> zev s a (RCode cond) s1 -> zev s (EUnary n a) (RWhile cond) s1
 | ZWhileLoop s n a b cond body s1 s2 v s3 : lower n = "do" -> zev s a (RWhile cond) s1 -> zev s1 b (RCode body) s2 ->
     leaf_first cond -> leaf_first body -> zwhile cond body s2 true v s3 -> zev s (EBinary n a b) v s3
+(* what a program can observe: the markers it logs, in order *)
+| ZDiag s n a va t s1 : lower n = "diag_log" -> (forall k, a <> ENum k) -> zev s a va s1 -> nonnil va -> rshow false va = Some t ->
+    zev s (EUnary n a) RNil (rmark s1 t)
+(* namespaces: with ns do {..} runs the block in a scope of that namespace; getVariable / setVariable read and write the same storage
+   that global names resolve to *)
+| ZNsNular s n ns : ns_nular (lower n) = Some ns -> zev s (ENular n) (RNs ns) s
+| ZWithVal s n a ns s1 : lower n = "with" -> (forall k, a <> ENum k) -> zev s a (RNs ns) s1 -> zev s (EUnary n a) (RWith ns) s1
+| ZWithDo s n a b ns body s1 s2 out s3 : lower n = "do" -> zev s a (RWith ns) s1 -> zev s1 b (RCode body) s2 ->
+    zblock (push_scope s2 (mk_scope ns [])) RNil body out s3 -> zev s (EBinary n a b) (val_of out) (pop_scope s3)
+| ZGetVar s n a b ns x s1 s2 v : lower n = "getvariable" -> zev s a (RNs ns) s1 -> zev s1 b (RStr x) s2 ->
+    rns_get s2 ns x = Some v -> v <> RNone -> zev s (EBinary n a b) v s2
+| ZGetVarNone s n a b ns x s1 s2 : lower n = "getvariable" -> zev s a (RNs ns) s1 -> zev s1 b (RStr x) s2 ->
+    rns_get s2 ns x = None -> zev s (EBinary n a b) RNil s2
+| ZSetVar s n a b ns x v s1 s2 : lower n = "setvariable" -> zev s a (RNs ns) s1 -> zev s1 b (RArr [RStr x; v]) s2 ->
+    zev s (EBinary n a b) RNil (rns_set s2 ns x v)
+| ZPrivate s n a x s1 : lower n = "private" -> (forall k, a <> ENum k) -> zev s a (RStr x) s1 -> zev s (EUnary n a) RNil (declare s1 x)
 with zevs : sstate -> list expr -> list rvalue -> sstate -> Prop :=
 | ZNil s : zevs s [] [] s
 | ZCons s e v s1 l vs s2 : zev s e v s1 -> nonnil v -> zevs s1 l vs s2 -> zevs s (e :: l) (v :: vs) s2
@@ -225,6 +251,7 @@ Lemma zev_not_none s e v s' : zev s e v s' -> v <> RNone.
 Proof.
   destruct 1; try discriminate;
     try (match goal with H : zwhile _ _ _ _ _ _ |- _ => exact (zwhile_val _ _ _ _ _ _ H) end);
+    try (match goal with H : ?v <> RNone |- ?v <> RNone => exact H end);
     try (match goal with H : nonnil _ |- _ => exact (proj2 H) end);
     try (match goal with H : zblock _ _ _ _ _ |- _ => exact (zblock_val _ _ _ _ _ H) end);
     try (match goal with H : ziter ?k _ _ _ _ _ _ _ |- _ => apply (ziter_val _ _ _ _ _ _ _ _ H); destruct k; discriminate end);
@@ -848,6 +875,99 @@ Definition WhileRuns (cond body:list stmt) (s:sstate) (first:bool) (v:rvalue) (s
     exists r' c' fc' rest', Steps r r' /\ r' <> r /\ Mach s' r' c' fc' rest' /\ c_values c' = cv v :: below /\
       kept fc fc' /\ Forall2 kept frest rest'.
 
+(* ---------------------------------------------------------------- operators that change what the program can observe *)
+Lemma unary_run_g r c f rest pre post n' w vals r3 c3 y :
+  Good r c -> c_frames c = f :: rest -> f_code f = pre ++ IUnary n' :: post -> f_pos f = length pre ->
+  c_values c = w :: vals -> f_base f <= length vals -> w <> VNil ->
+  op_unary (lower n') w r (set_values (set_frames c (set_pos f (S (f_pos f)) :: rest)) vals) = Ok (r3, c3, y) ->
+  c_suspended c3 = false -> ctl_same r r3 ->
+  Steps r (upd_cur r3 (push_value c3 y)) /\ Good (upd_cur r3 (push_value c3 y)) (push_value c3 y).
+Proof.
+  intros G EF EC EP EV B NW OP SU CS.
+  assert (N : nth_error (f_code f) (f_pos f) = Some (IUnary n')) by (rewrite EC, EP; apply nth_error_mid).
+  apply (run_one_g r c f rest (IUnary n') r3 _ G EF N); [|exact SU|exact CS].
+  eapply exec_unary_nonnil; [|exact NW|exact OP].
+  apply (pop_value_top _ (set_pos f (S (f_pos f))) rest); [reflexivity|exact EV|exact B].
+Qed.
+Lemma binary_run_g r c f rest pre post n' l w vals r3 c3 y :
+  Good r c -> c_frames c = f :: rest -> f_code f = pre ++ IBinary n' :: post -> f_pos f = length pre ->
+  c_values c = w :: l :: vals -> f_base f <= length vals -> w <> VNil -> l <> VNil ->
+  op_binary (lower n') l w r (set_values (set_frames c (set_pos f (S (f_pos f)) :: rest)) vals) = Ok (r3, c3, y) ->
+  c_suspended c3 = false -> ctl_same r r3 ->
+  Steps r (upd_cur r3 (push_value c3 y)) /\ Good (upd_cur r3 (push_value c3 y)) (push_value c3 y).
+Proof.
+  intros G EF EC EP EV B NW NL OP SU CS.
+  assert (N : nth_error (f_code f) (f_pos f) = Some (IBinary n')) by (rewrite EC, EP; apply nth_error_mid).
+  apply (run_one_g r c f rest (IBinary n') r3 _ G EF N); [|exact SU|exact CS].
+  eapply (exec_binary_nonnil n' l w r _ (set_values (set_frames c (set_pos f (S (f_pos f)) :: rest)) (l :: vals))); [|exact NW| |exact NL|exact OP].
+  - apply (pop_value_top _ (set_pos f (S (f_pos f))) rest); [reflexivity|exact EV|cbn; lia].
+  - rewrite (pop_value_top _ (set_pos f (S (f_pos f))) rest l vals); [reflexivity|reflexivity|reflexivity|exact B].
+Qed.
+
+(* diag_log: one marker more, nothing else *)
+Lemma world_mark r t : world (mark (logmsg r d_InfoMessage) t) = (r_nss r, t :: marks (r_out r)).
+Proof. reflexivity. Qed.
+Lemma ctl_same_mark r t : ctl_same r (mark (logmsg r d_InfoMessage) t).
+Proof. unfold ctl_same, cfg_same, mark, logmsg. cbn. auto 15. Qed.
+Lemma match_mark s r t fs : Match s r fs -> Match (rmark s t) (mark (logmsg r d_InfoMessage) t) fs.
+Proof.
+  intros [F N]. split; [exact F|]. rewrite world_mark. cbn [rmark st_nss st_trace].
+  rewrite (world_nss _ _ _ N), (world_marks _ _ _ N). reflexivity.
+Qed.
+
+(* setVariable: the namespace storage changes the way a global assignment changes it *)
+Lemma ctl_same_ns_set r ns n v : ctl_same r (ns_set r ns n v).
+Proof. unfold ns_set, set_nss, rt_with, ctl_same, cfg_same. cbn. auto 15. Qed.
+Lemma match_ns_set s r ns x v fs : Match s r fs -> Match (rns_set s ns x v) (ns_set r ns x (cv v)) fs.
+Proof.
+  intros [F N]. split; [exact F|]. unfold world. f_equal; [|exact (world_marks _ _ _ N)].
+  unfold ns_set. rewrite nss_set_nss, (world_nss _ _ _ N). cbn [rns_set st_nss].
+  rewrite assoc_mnss. destruct (assoc ns (st_nss s)) as [m|]; cbn [option_map].
+  - rewrite assoc_set_mvars, assoc_set_mnss. reflexivity.
+  - change (assoc_set (lower x) (cv v) []) with (mvars (assoc_set (lower x) v [])). rewrite assoc_set_mnss. reflexivity.
+Qed.
+Lemma ns_get_match s r fs ns x : Match s r fs -> ns_get r ns x = option_map cv (rns_get s ns x).
+Proof.
+  intros [_ N]. unfold ns_get, rns_get. rewrite (world_nss _ _ _ N), assoc_mnss.
+  destruct (assoc ns (st_nss s)) as [m|]; cbn [option_map]; [apply assoc_mvars|reflexivity].
+Qed.
+
+(* private "x": the frame gets the name the scope gets *)
+Lemma match_declare s r c f rest x : c_frames c = f :: rest -> Match s r (f :: rest) ->
+  exists f', c_frames (declare_top_var c x) = f' :: rest /\ Match (declare s x) r (f' :: rest) /\ kept f f' /\
+             c_values (declare_top_var c x) = c_values c /\ c_suspended (declare_top_var c x) = c_suspended c.
+Proof.
+  intros EF [F N]. inversion F as [|sc f0 scs fs (V & NS & BB) F' E1 E2]; subst.
+  unfold declare_top_var, upd_top, declare. rewrite EF, <- E1. rewrite (V (lower x)).
+  destruct (assoc (lower x) (sc_vars sc)) as [w|] eqn:EA; cbn [option_map].
+  - exists f. split; [reflexivity|]. split; [|split; [apply kept_refl|split; reflexivity]].
+    split; [rewrite <- E1; constructor; [split; [exact V|split; assumption]|exact F']|exact N].
+  - eexists. split; [reflexivity|]. split; [|split; [unfold kept; destruct f; reflexivity|split; reflexivity]].
+    unfold bind_here. rewrite <- E1. split; [|exact N]. cbn. constructor; [|exact F'].
+    split; [cbn; apply (vars_match_set (lower x) RNil); exact V|split; [exact NS|exact BB]].
+Qed.
+
+(* with ns do {..}: a scope of the named namespace *)
+Lemma scope_run_ns s ns vars b out s3 r1 c0 fc rest :
+  ScopeEnds (push_scope s (mk_scope ns vars)) RNil (compile_block b) out s3 ->
+  let newf := mk_frame ns (compile_block b) None None (mvars vars) in
+  let c1 := push_value (push_frame c0 newf) VNil in
+  Good r1 c1 -> quirks r1 = ([], 0) -> c_frames c0 = fc :: rest -> Match s r1 (fc :: rest) -> f_base fc <= length (c_values c0) ->
+  exists r' c' fc' rest', Steps r1 r' /\ Mach (pop_scope s3) r' c' fc' rest' /\ c_values c' = cv (val_of out) :: c_values c0 /\
+    kept fc fc' /\ Forall2 kept rest rest'.
+Proof.
+  intros SE newf c1 G D EF M B.
+  set (nf := set_base newf (length (c_values c0))).
+  assert (A : AtM (push_scope s (mk_scope ns vars)) RNil r1 c1 nf (fc :: rest) (c_values c0)).
+  { split.
+    - split; [exact G|]. split; [cbn; rewrite EF; reflexivity|]. split.
+      + destruct M as [F N]. split; [|exact N]. cbn. constructor; [|exact F].
+        split; [apply vars_match_mvars|split; reflexivity].
+      + split; [cbn; lia|exact D].
+    - split; [reflexivity|]. exists [VNil]. split; [reflexivity|]. split; [reflexivity|]. split; [discriminate|left; reflexivity]. }
+  exact (SE r1 c1 nf fc rest (c_values c0) [] A (or_intror eq_refl) eq_refl eq_refl eq_refl B).
+Qed.
+
 Theorem vm_runs_z :
   (forall s e v s', zev s e v s' -> forall r c f rest pre post, Mach s r c f rest ->
       f_code f = pre ++ compile_expr e ++ post -> f_pos f = length pre -> Post s' (cv v) (length (compile_expr e)) r c f rest) /\
@@ -1347,6 +1467,132 @@ Proof.
     split; [exact M4|]. split; [exact EV4|].
     split; [eapply moved_trans; [exact MV1|eapply moved_trans; [exact MV2|eapply moved_trans; [apply (moved_set_pos f2 (S (f_pos f2)))|apply kept_moved; exact K4]]]|].
     split; [rewrite (kept_pos _ _ K4); cbn; rewrite P2, P1; lia|eapply kept_all_trans; [exact K1|eapply kept_all_trans; eassumption]].
+  - (* diag_log *) intros s n a va t s1 HN NL HA IHa NNa HS r c f rest pre post MA EC EP.
+    rewrite (compile_unary_nonlit n a NL) in *. rewrite app_length. cbn [length]. rewrite <- app_assoc in EC.
+    post_intro (IHa r c f rest pre ([IUnary (lower n)] ++ post) MA EC EP) r1 c1 f1 rest1 S1 M1 EV1 MV1 P1 K1.
+    destruct (after_operands_code f f1 pre _ _ MV1 EC EP P1) as [EC1 EP1].
+    destruct M1 as (G1 & EF1 & MM1 & B1 & D1). destruct MA as (_ & _ & _ & B & _).
+    set (c0 := set_values (set_frames c1 (set_pos f1 (S (f_pos f1)) :: rest1)) (c_values c)).
+    set (r2 := mark (logmsg r1 d_InfoMessage) t).
+    destruct (unary_run_g r1 c1 f1 rest1 _ _ (lower n) (cv va) (c_values c) r2 c0 VNil G1 EF1 EC1 EP1 EV1) as [S2 G2].
+    { rewrite (moved_base _ _ MV1); exact B. } { apply nonnil_cv; exact NNa. }
+    { rewrite lower_idem, HN. unfold op_unary. cbn [String.eqb Ascii.eqb Bool.eqb]. rewrite (show_cv false va t HS). reflexivity. }
+    { destruct G1 as (_ & _ & _ & _ & _ & _ & SU); exact SU. } { apply ctl_same_mark. }
+    eexists _, _, _, rest1. split; [eapply steps_trans; [exact S1|exact S2]|]. split.
+    + split; [exact G2|]. split; [reflexivity|]. split; [apply match_upd, match_mark, match_set_pos; exact MM1|].
+      split; [cbn; rewrite (moved_base _ _ MV1); lia|rewrite quirks_upd_cur; exact D1].
+    + split; [reflexivity|]. split; [eapply moved_trans; [exact MV1|apply moved_set_pos]|]. split; [cbn; rewrite P1; lia|exact K1].
+  - (* missionNamespace, uiNamespace *) intros s n ns HN r c f rest pre post MA EC EP. cbn [compile_expr app length] in *.
+    eapply push_post; eauto. intros c1 F1. cbn [exec_instr]. rewrite lower_idem. unfold ns_nular in HN. unfold op_nular.
+    destruct (String.eqb (lower n) "missionnamespace") eqn:E1.
+    { apply String.eqb_eq in E1. rewrite E1. inversion HN; subst. reflexivity. }
+    destruct (String.eqb (lower n) "uinamespace") eqn:E2; [|discriminate HN].
+    apply String.eqb_eq in E2. rewrite E2. inversion HN; subst. reflexivity.
+  - (* with ns *) intros s n a ns s1 HN NL HA IHa r c f rest pre post MA EC EP.
+    rewrite (compile_unary_nonlit n a NL) in *. rewrite app_length. cbn [length]. rewrite <- app_assoc in EC.
+    post_intro (IHa r c f rest pre ([IUnary (lower n)] ++ post) MA EC EP) r1 c1 f1 rest1 S1 M1 EV1 MV1 P1 K1.
+    destruct (after_operands_code f f1 pre _ _ MV1 EC EP P1) as [EC1 EP1].
+    destruct M1 as (G1 & EF1 & MM1 & B1 & D1). destruct MA as (_ & _ & _ & B & _).
+    set (c0 := set_values (set_frames c1 (set_pos f1 (S (f_pos f1)) :: rest1)) (c_values c)).
+    destruct (unary_run r1 c1 f1 rest1 _ _ (lower n) (cv (RNs ns)) (c_values c) c0 (cv (RWith ns)) G1 EF1 EC1 EP1 EV1) as [S2 G2].
+    { rewrite (moved_base _ _ MV1); exact B. } { discriminate. } { rewrite lower_idem, HN. reflexivity. }
+    { destruct G1 as (_ & _ & _ & _ & _ & _ & SU); exact SU. }
+    eexists _, _, _, rest1. split; [eapply steps_trans; [exact S1|exact S2]|]. split.
+    + split; [exact G2|]. split; [reflexivity|]. split; [apply match_upd, match_set_pos; exact MM1|].
+      split; [cbn; rewrite (moved_base _ _ MV1); lia|rewrite quirks_upd_cur; exact D1].
+    + split; [reflexivity|]. split; [eapply moved_trans; [exact MV1|apply moved_set_pos]|]. split; [cbn; rewrite P1; lia|exact K1].
+  - (* with ns do {..} *) intros s n a b ns body s1 s2 out s3 HN HA IHa HB IHb HX IHx r c f rest pre post MA EC EP.
+    rewrite compile_binary in *. rewrite !app_length. cbn [length]. rewrite <- !app_assoc in EC.
+    post_intro (IHa r c f rest pre (compile_expr b ++ [IBinary (lower n)] ++ post) MA EC EP) r1 c1 f1 rest1 S1 M1 EV1 MV1 P1 K1.
+    destruct (after_operands_code f f1 pre _ _ MV1 EC EP P1) as [EC1 EP1].
+    post_intro (IHb r1 c1 f1 rest1 (pre ++ compile_expr a) ([IBinary (lower n)] ++ post) M1 EC1 EP1) r2 c2 f2 rest2 S2 M2 EV2 MV2 P2 K2.
+    destruct (after_operands_code f1 f2 _ _ _ MV2 EC1 EP1 P2) as [EC2 EP2].
+    destruct M2 as (G2 & EF2 & MM2 & B2 & D2). destruct MA as (_ & _ & _ & B & _).
+    rewrite EV1 in EV2.
+    set (c0 := set_values (set_frames c2 (set_pos f2 (S (f_pos f2)) :: rest2)) (c_values c)).
+    destruct (binary_run r2 c2 f2 rest2 _ _ (lower n) (cv (RWith ns)) (cv (RCode body)) (c_values c)
+                (push_frame c0 (mk_frame ns (compile_block body) None None (mvars []))) VNil G2 EF2 EC2 EP2 EV2) as [S3 G3].
+    { rewrite (moved_base _ _ MV2), (moved_base _ _ MV1); exact B. } { discriminate. } { discriminate. }
+    { rewrite lower_idem, HN. reflexivity. }
+    { destruct G2 as (_ & _ & _ & _ & _ & _ & SU); exact SU. }
+    destruct (scope_run_ns s2 ns [] body out s3 _ c0 (set_pos f2 (S (f_pos f2))) rest2 (scope_ends_of_body _ _ _ _ _ IHx) G3) as (r4 & c4 & fc4 & rest4 & S4 & M4 & EV4 & K4 & KR4).
+    { rewrite quirks_upd_cur; exact D2. } { reflexivity. } { apply match_upd, match_set_pos; exact MM2. }
+    { cbn. rewrite (moved_base _ _ MV2), (moved_base _ _ MV1); exact B. }
+    eexists _, _, fc4, rest4. split; [eapply steps_trans; [exact S1|eapply steps_trans; [exact S2|eapply steps_trans; [exact S3|exact S4]]]|].
+    split; [exact M4|]. split; [exact EV4|].
+    split; [eapply moved_trans; [exact MV1|eapply moved_trans; [exact MV2|eapply moved_trans; [apply (moved_set_pos f2 (S (f_pos f2)))|apply kept_moved; exact K4]]]|].
+    split; [rewrite (kept_pos _ _ K4); cbn; rewrite P2, P1; lia|eapply kept_all_trans; [exact K1|eapply kept_all_trans; eassumption]].
+  - (* ns getVariable "x", bound *) intros s n a b ns x s1 s2 v HN HA IHa HB IHb HG NV r c f rest pre post MA EC EP.
+    rewrite compile_binary in *. rewrite !app_length. cbn [length]. rewrite <- !app_assoc in EC.
+    post_intro (IHa r c f rest pre (compile_expr b ++ [IBinary (lower n)] ++ post) MA EC EP) r1 c1 f1 rest1 S1 M1 EV1 MV1 P1 K1.
+    destruct (after_operands_code f f1 pre _ _ MV1 EC EP P1) as [EC1 EP1].
+    post_intro (IHb r1 c1 f1 rest1 (pre ++ compile_expr a) ([IBinary (lower n)] ++ post) M1 EC1 EP1) r2 c2 f2 rest2 S2 M2 EV2 MV2 P2 K2.
+    destruct (after_operands_code f1 f2 _ _ _ MV2 EC1 EP1 P2) as [EC2 EP2].
+    destruct M2 as (G2 & EF2 & MM2 & B2 & D2). destruct MA as (_ & _ & _ & B & _).
+    rewrite EV1 in EV2.
+    set (c0 := set_values (set_frames c2 (set_pos f2 (S (f_pos f2)) :: rest2)) (c_values c)).
+    destruct (binary_run r2 c2 f2 rest2 _ _ (lower n) (cv (RNs ns)) (cv (RStr x)) (c_values c) c0 (cv v) G2 EF2 EC2 EP2 EV2) as [S3 G3].
+    { rewrite (moved_base _ _ MV2), (moved_base _ _ MV1); exact B. } { discriminate. } { discriminate. }
+    { rewrite lower_idem, HN. unfold op_binary. cbn [String.eqb Ascii.eqb Bool.eqb cv]. rewrite (ns_get_match _ _ _ ns x MM2), HG. reflexivity. }
+    { destruct G2 as (_ & _ & _ & _ & _ & _ & SU); exact SU. }
+    eexists _, _, _, rest2. split; [eapply steps_trans; [exact S1|eapply steps_trans; [exact S2|exact S3]]|]. split.
+    + split; [exact G3|]. split; [reflexivity|]. split; [apply match_upd, match_set_pos; exact MM2|].
+      split; [cbn; rewrite (moved_base _ _ MV2), (moved_base _ _ MV1); lia|rewrite quirks_upd_cur; exact D2].
+    + split; [reflexivity|]. split; [eapply moved_trans; [exact MV1|eapply moved_trans; [exact MV2|apply moved_set_pos]]|].
+      split; [cbn; rewrite P2, P1; lia|eapply kept_all_trans; eassumption].
+  - (* ns getVariable "x", not bound *) intros s n a b ns x s1 s2 HN HA IHa HB IHb HG r c f rest pre post MA EC EP.
+    rewrite compile_binary in *. rewrite !app_length. cbn [length]. rewrite <- !app_assoc in EC.
+    post_intro (IHa r c f rest pre (compile_expr b ++ [IBinary (lower n)] ++ post) MA EC EP) r1 c1 f1 rest1 S1 M1 EV1 MV1 P1 K1.
+    destruct (after_operands_code f f1 pre _ _ MV1 EC EP P1) as [EC1 EP1].
+    post_intro (IHb r1 c1 f1 rest1 (pre ++ compile_expr a) ([IBinary (lower n)] ++ post) M1 EC1 EP1) r2 c2 f2 rest2 S2 M2 EV2 MV2 P2 K2.
+    destruct (after_operands_code f1 f2 _ _ _ MV2 EC1 EP1 P2) as [EC2 EP2].
+    destruct M2 as (G2 & EF2 & MM2 & B2 & D2). destruct MA as (_ & _ & _ & B & _).
+    rewrite EV1 in EV2.
+    set (c0 := set_values (set_frames c2 (set_pos f2 (S (f_pos f2)) :: rest2)) (c_values c)).
+    destruct (binary_run r2 c2 f2 rest2 _ _ (lower n) (cv (RNs ns)) (cv (RStr x)) (c_values c) c0 (cv RNil) G2 EF2 EC2 EP2 EV2) as [S3 G3].
+    { rewrite (moved_base _ _ MV2), (moved_base _ _ MV1); exact B. } { discriminate. } { discriminate. }
+    { rewrite lower_idem, HN. unfold op_binary. cbn [String.eqb Ascii.eqb Bool.eqb cv]. rewrite (ns_get_match _ _ _ ns x MM2), HG. reflexivity. }
+    { destruct G2 as (_ & _ & _ & _ & _ & _ & SU); exact SU. }
+    eexists _, _, _, rest2. split; [eapply steps_trans; [exact S1|eapply steps_trans; [exact S2|exact S3]]|]. split.
+    + split; [exact G3|]. split; [reflexivity|]. split; [apply match_upd, match_set_pos; exact MM2|].
+      split; [cbn; rewrite (moved_base _ _ MV2), (moved_base _ _ MV1); lia|rewrite quirks_upd_cur; exact D2].
+    + split; [reflexivity|]. split; [eapply moved_trans; [exact MV1|eapply moved_trans; [exact MV2|apply moved_set_pos]]|].
+      split; [cbn; rewrite P2, P1; lia|eapply kept_all_trans; eassumption].
+  - (* ns setVariable ["x", v] *) intros s n a b ns x v s1 s2 HN HA IHa HB IHb r c f rest pre post MA EC EP.
+    rewrite compile_binary in *. rewrite !app_length. cbn [length]. rewrite <- !app_assoc in EC.
+    post_intro (IHa r c f rest pre (compile_expr b ++ [IBinary (lower n)] ++ post) MA EC EP) r1 c1 f1 rest1 S1 M1 EV1 MV1 P1 K1.
+    destruct (after_operands_code f f1 pre _ _ MV1 EC EP P1) as [EC1 EP1].
+    post_intro (IHb r1 c1 f1 rest1 (pre ++ compile_expr a) ([IBinary (lower n)] ++ post) M1 EC1 EP1) r2 c2 f2 rest2 S2 M2 EV2 MV2 P2 K2.
+    destruct (after_operands_code f1 f2 _ _ _ MV2 EC1 EP1 P2) as [EC2 EP2].
+    destruct M2 as (G2 & EF2 & MM2 & B2 & D2). destruct MA as (_ & _ & _ & B & _).
+    rewrite EV1 in EV2.
+    set (c0 := set_values (set_frames c2 (set_pos f2 (S (f_pos f2)) :: rest2)) (c_values c)).
+    destruct (binary_run_g r2 c2 f2 rest2 _ _ (lower n) (cv (RNs ns)) (cv (RArr [RStr x; v])) (c_values c) (ns_set r2 ns x (cv v)) c0 VNil G2 EF2 EC2 EP2 EV2) as [S3 G3].
+    { rewrite (moved_base _ _ MV2), (moved_base _ _ MV1); exact B. } { discriminate. } { discriminate. }
+    { rewrite lower_idem, HN. reflexivity. }
+    { destruct G2 as (_ & _ & _ & _ & _ & _ & SU); exact SU. } { apply ctl_same_ns_set. }
+    eexists _, _, _, rest2. split; [eapply steps_trans; [exact S1|eapply steps_trans; [exact S2|exact S3]]|]. split.
+    + split; [exact G3|]. split; [reflexivity|]. split; [apply match_upd, match_ns_set, match_set_pos; exact MM2|].
+      split; [cbn; rewrite (moved_base _ _ MV2), (moved_base _ _ MV1); lia|rewrite quirks_upd_cur; exact D2].
+    + split; [reflexivity|]. split; [eapply moved_trans; [exact MV1|eapply moved_trans; [exact MV2|apply moved_set_pos]]|].
+      split; [cbn; rewrite P2, P1; lia|eapply kept_all_trans; eassumption].
+  - (* private "x" *) intros s n a x s1 HN NL HA IHa r c f rest pre post MA EC EP.
+    rewrite (compile_unary_nonlit n a NL) in *. rewrite app_length. cbn [length]. rewrite <- app_assoc in EC.
+    post_intro (IHa r c f rest pre ([IUnary (lower n)] ++ post) MA EC EP) r1 c1 f1 rest1 S1 M1 EV1 MV1 P1 K1.
+    destruct (after_operands_code f f1 pre _ _ MV1 EC EP P1) as [EC1 EP1].
+    destruct M1 as (G1 & EF1 & MM1 & B1 & D1). destruct MA as (_ & _ & _ & B & _).
+    set (c0 := set_values (set_frames c1 (set_pos f1 (S (f_pos f1)) :: rest1)) (c_values c)).
+    destruct (match_declare s1 r1 c0 (set_pos f1 (S (f_pos f1))) rest1 x eq_refl (match_set_pos _ _ _ _ _ MM1)) as (f2 & EF2 & MM2 & K2 & EV2 & SU2).
+    destruct (unary_run r1 c1 f1 rest1 _ _ (lower n) (cv (RStr x)) (c_values c) (declare_top_var c0 x) VNil G1 EF1 EC1 EP1 EV1) as [S2 G2].
+    { rewrite (moved_base _ _ MV1); exact B. } { discriminate. } { rewrite lower_idem, HN. reflexivity. }
+    { rewrite SU2. destruct G1 as (_ & _ & _ & _ & _ & _ & SU); exact SU. }
+    eexists _, _, f2, rest1. split; [eapply steps_trans; [exact S1|exact S2]|]. split.
+    + split; [exact G2|]. split; [exact EF2|]. split; [apply match_upd; exact MM2|].
+      split; [|rewrite quirks_upd_cur; exact D1].
+      change (c_values (push_value (declare_top_var c0 x) VNil)) with (VNil :: c_values (declare_top_var c0 x)).
+      rewrite EV2, (kept_base _ _ K2). cbn. rewrite (moved_base _ _ MV1). lia.
+    + split; [change (c_values (push_value (declare_top_var c0 x) VNil)) with (VNil :: c_values (declare_top_var c0 x)); rewrite EV2; reflexivity|]. split; [eapply moved_trans; [exact MV1|eapply moved_trans; [apply (moved_set_pos f1 (S (f_pos f1)))|apply kept_moved; exact K2]]|].
+      split; [rewrite (kept_pos _ _ K2); cbn; rewrite P1; lia|exact K1].
   - (* no elements *) intros s r c f rest pre post MA EC EP. split; [|reflexivity].
     exists r, c, f, rest. split; [apply StepsRefl|]. split; [exact MA|]. split; [reflexivity|]. split; [apply moved_refl|].
     split; [cbn; lia|apply kept_all_refl].
@@ -1988,6 +2234,33 @@ Proof.
     destruct (leaf_first_cons _ LFc) as (st & crest & ->).
     transitivity (eval_binary (S f) s2 "do" (RWhile (st :: crest)) (RCode body) (in_scope_f (S f)) plain_scope_f); [reflexivity|].
     rewrite eval_binary_while. apply IHw; [lia|lia|reflexivity].
+  - (* diag_log *) intros s n a va t s1 HN NL HA [fa IHa] NNa HS. exists (S (S fa)). intros [|[|f]] L; try lia.
+    rewrite (eval_S_unary _ _ _ _ NL), (IHa (S f)) by lia. rewrite HN.
+    transitivity (eval_unary (S f) s1 "diag_log" va (in_scope_f (S f)) plain_scope_f);
+      [destruct NNa as [A1 A2]; destruct va; try contradiction; reflexivity|].
+    unfold eval_unary. cbn [String.eqb Ascii.eqb Bool.eqb]. rewrite HS. reflexivity.
+  - (* missionNamespace, uiNamespace *) intros s n ns HN. exists 1. intros [|f] L; [lia|]. cbn [eval]. unfold ns_nular in HN.
+    destruct (String.eqb (lower n) "nil") eqn:E0. { apply String.eqb_eq in E0. rewrite E0 in HN. discriminate HN. }
+    destruct (String.eqb (lower n) "missionnamespace"); [inversion HN; reflexivity|].
+    destruct (String.eqb (lower n) "uinamespace"); [inversion HN; reflexivity|discriminate HN].
+  - (* with ns *) intros s n a ns s1 HN NL HA [fa IHa]. exists (S (S fa)). intros [|[|f]] L; try lia.
+    rewrite (eval_S_unary _ _ _ _ NL), (IHa (S f)) by lia. rewrite HN. reflexivity.
+  - (* with ns do {..} *) intros s n a b ns body s1 s2 out s3 HN HA [fa IHa] HB [fb IHb] HX [fx IHx]. exists (S (S (fa + fb + fx))). intros [|[|f]] L; try lia.
+    rewrite eval_S_binary, (IHa (S f)), (IHb (S f)) by lia. rewrite HN.
+    transitivity (in_scope_f (S f) s2 (mk_scope ns []) body); [reflexivity|].
+    apply in_scope_out. apply IHx. lia.
+  - (* getVariable, bound *) intros s n a b ns x s1 s2 v HN HA [fa IHa] HB [fb IHb] HG NV. exists (S (S (fa + fb))). intros [|[|f]] L; try lia.
+    rewrite eval_S_binary, (IHa (S f)), (IHb (S f)) by lia. rewrite HN.
+    transitivity (eval_binary (S f) s2 "getvariable" (RNs ns) (RStr x) (in_scope_f (S f)) plain_scope_f); [reflexivity|].
+    unfold eval_binary. cbn [String.eqb Ascii.eqb Bool.eqb]. rewrite HG. reflexivity.
+  - (* getVariable, not bound *) intros s n a b ns x s1 s2 HN HA [fa IHa] HB [fb IHb] HG. exists (S (S (fa + fb))). intros [|[|f]] L; try lia.
+    rewrite eval_S_binary, (IHa (S f)), (IHb (S f)) by lia. rewrite HN.
+    transitivity (eval_binary (S f) s2 "getvariable" (RNs ns) (RStr x) (in_scope_f (S f)) plain_scope_f); [reflexivity|].
+    unfold eval_binary. cbn [String.eqb Ascii.eqb Bool.eqb]. rewrite HG. reflexivity.
+  - (* setVariable *) intros s n a b ns x v s1 s2 HN HA [fa IHa] HB [fb IHb]. exists (S (S (fa + fb))). intros [|[|f]] L; try lia.
+    rewrite eval_S_binary, (IHa (S f)), (IHb (S f)) by lia. rewrite HN. reflexivity.
+  - (* private "x" *) intros s n a x s1 HN NL HA [fa IHa]. exists (S (S fa)). intros [|[|f]] L; try lia.
+    rewrite (eval_S_unary _ _ _ _ NL), (IHa (S f)) by lia. rewrite HN. reflexivity.
   - (* no elements *) intros s. exists 0. intros f _ acc. cbn. rewrite app_nil_r. reflexivity.
   - (* elements *) intros s e v s1 l vs s2 HE [fe IHe] NN HL [fl IHl]. exists (fe + fl). intros f L acc.
     cbn [go_arr]. rewrite (IHe f) by lia. fold (go_arr f).
